@@ -418,9 +418,12 @@ func (cc *Conn) sendPong(token message.Token) error {
 
 func (cc *Conn) handleTCPSignalReceived(code codes.Code) {
 	cc.handlerMutex.RLock()
-	defer cc.handlerMutex.RUnlock()
-	if cc.tcpSignalReceivedHandler != nil {
-		cc.tcpSignalReceivedHandler(code)
+	h := cc.tcpSignalReceivedHandler
+	cc.handlerMutex.RUnlock()
+	if h != nil {
+		// not on this goroutine: it reads the connection, and the callback may issue a request whose answer
+		// has to be read while the callback waits (as for the callback of AsyncPing)
+		go h(code)
 	}
 }
 
